@@ -213,19 +213,12 @@ DOCUMENTED_MISSES = {
                      "readings of 'unsigned char' (raw byte as the library has it, 8-bit unsigned as C has it), so no rule claims the spelling",
     "seed-C13-r5-1": "sizeof() errors re-raised as ExpressionParserError, which TokenParser._constant swallows: two cooperating sites in expression.py / parser.py, "
                      "neither wrong alone; the parsers are not folded",
-    "seed-C13-r5-2": "typedef struct parsed with register=True: the declarators are then consumed by _struct - a one-word change in the token parser, which is "
-                     "outside the folds (only its regexes, comment stripping and ordering are checked structurally)",
     "seed-C02-r6-2": "a new error handler ('surrogatepass') passed by three of the four wide-character readers / writers and forgotten in WcharArray._write: input "
                      "the pristine readers reject is now parsed and cannot be dumped - no rule compares the error handlers of sibling codecs",
     "seed-C12-r6-3": "legacy (DEF_LEGACY) enum parser splits the body on commas before it strips '//' comments: the regex-based legacy parser is only checked "
                      "for its patterns, not folded",
-    "seed-C13-r6-2": "a failed 'struct tag' lookup re-raised as ParserError in the token parser: which exception class reports an unknown alias in that one "
-                     "branch is not claimed by any rule (the parsers are not folded)",
-    "seed-C13-r6-3": "typedef struct tag registered only when the tag is not yet a typedef: a duplicate tag is silently re-declared - token parser internals",
     "seed-C14-r6-1": "Union._rebuild keeps the caller's structure object instead of the copy re-read from the buffer: two unions given the same object then "
                      "alias it - an identity property of values the folds do not model",
-    "seed-C20-r6-1": "TokenParser._parse_field_type no longer strips the declarator name: a pointer typedef written '* NAME' is registered under ' NAME' - "
-                     "token parser internals; the stub fold takes the typedef table as given",
     "seed-C20-r4-2": "legacy parser registers the typedef names before the struct tag: only the insertion order of cs.typedefs changes; the stub generator "
                      "declares a class under the first key it meets - no structural necessary condition on the legacy parser's order is claimed",
 }
@@ -415,12 +408,21 @@ def jobs(only: str | None = None):
     return js
 
 
+def _dispatch_timed(job):
+    t0 = time.time()
+    return _dispatch(job), time.time() - t0
+
+
 def main(jobs_n: int = 16, only: str | None = None, jobs: int | None = None) -> int:
     n = jobs or jobs_n
     t0 = time.time()
     js = globals()["jobs"](only)
+    results = []
     with Pool(min(n, max(1, len(js)))) as pool:
-        results = pool.map(_dispatch, js, chunksize=1)
+        for k, r in enumerate(pool.imap_unordered(_dispatch_timed, js, chunksize=1)):
+            results.append(r[0])
+            if os.environ.get("CSA_SELFTEST_PROGRESS"):
+                print(f"[selftest] {k + 1}/{len(js)} {r[0][0]} {r[0][1]} {r[1]:.0f}s", flush=True)
     bad = 0
     counts: dict[str, int] = {}
     for rid, status, detail, expect in results:
